@@ -202,6 +202,19 @@ func (va *VaralignBlock) Finish() {
 		defer trace.Call()()
 	}
 
+	// If another fix has changed one of the lines since it was split
+	// into its parts, the remembered parts and their positions are
+	// outdated. Leave the alignment of this block to the next run.
+	for _, mkinfo := range va.mkinfos {
+		for _, info := range mkinfo.infos {
+			textnl := info.fixer.Autofix().texts[info.rawIndex]
+			if strings.TrimSuffix(textnl, "\n") != info.String() {
+				*va = VaralignBlock{}
+				return
+			}
+		}
+	}
+
 	newWidth := va.optimalWidth()
 	for _, mkinfo := range va.mkinfos {
 		mkinfo.realign(newWidth)
